@@ -168,13 +168,46 @@ def parity_check(bm, loop, expo, ivar):
         if isinstance(s, ast.Assign) and isinstance(s.targets[0], ast.Name) and any(isinstance(x, ast.Name) and x.id in fvars for x in ast.walk(s.value)):
             face_ids.add(s.targets[0].id)
 
-    def ev(e, env):
-        if isinstance(e, ast.Constant) and isinstance(e.value, int):
-            return e.value % 2
+    local = {}
+    for s in own_statements(bm.node):
+        if isinstance(s, ast.Assign) and len(s.targets) == 1 and isinstance(s.targets[0], ast.Name):
+            local.setdefault(s.targets[0].id, []).append(s.value)
+
+    def is_bit(e):
+        """An expression whose VALUE is 0 or 1 (so that its parity is its value): an orientation, a bool(), a comparison."""
+        if isinstance(e, ast.Subscript) and isinstance(e.value, ast.Name) and e.value.id == "orientations":
+            return True
+        if isinstance(e, ast.Call) and getattr(e.func, "id", None) in ("bool", "int") and len(e.args) == 1:
+            return is_bit(e.args[0]) or isinstance(e.args[0], (ast.BoolOp, ast.Compare))
+        if isinstance(e, ast.BoolOp):
+            return all(is_bit(v) for v in e.values)
+        if isinstance(e, ast.Compare):
+            return True
+        if isinstance(e, ast.Constant) and e.value in (0, 1, True, False):
+            return True
+        if isinstance(e, ast.Name) and e.id in local and len(local[e.id]) == 1 and e.id not in ("order",):
+            return is_bit(local[e.id][0])
+        return False
+
+    def ev(e, env, depth=0):
+        if isinstance(e, ast.Constant) and isinstance(e.value, (int, bool)):
+            return int(e.value) % 2
         if isinstance(e, ast.Name):
             if e.id in env:
                 return env[e.id]
+            if e.id in local and len(local[e.id]) == 1 and depth < 6:
+                return ev(local[e.id][0], env, depth + 1)
             raise KeyError(e.id)
+        if isinstance(e, ast.Call) and getattr(e.func, "id", None) in ("bool", "int") and len(e.args) == 1 and is_bit(e):
+            return ev(e.args[0], env, depth + 1)
+        if isinstance(e, ast.BoolOp) and is_bit(e):
+            vals = [ev(v, env, depth + 1) for v in e.values]
+            return max(vals) if isinstance(e.op, ast.Or) else min(vals)
+        if isinstance(e, ast.Compare) and len(e.ops) == 1 and is_bit(e.left) and is_bit(e.comparators[0]) and isinstance(e.ops[0], (ast.Eq, ast.NotEq)):
+            a, b = ev(e.left, env, depth + 1), ev(e.comparators[0], env, depth + 1)
+            return int((a != b) if isinstance(e.ops[0], ast.NotEq) else (a == b))
+        if isinstance(e, ast.IfExp) and is_bit(e.test):
+            return ev(e.body, env, depth + 1) if ev(e.test, env, depth + 1) else ev(e.orelse, env, depth + 1)
         if isinstance(e, ast.BinOp):
             if isinstance(e.op, ast.Mod) and isinstance(e.right, ast.Constant) and e.right.value == 2:
                 return ev(e.left, env)
